@@ -4,10 +4,9 @@
    moves the start before the search start (known finding F-keepout-lb).  For patterns with no \K
    under a look-behind ([kok true]) the start of every result of the reference search is at or
    after the search start: the clause of SearchOK that the API layer (ApiProofs.v) relies on. *)
-From FR Require Import Base Utf8 Utf8Facts Chars Ast Analyze Sem ExprLemmas SemSound Param.
+From FR Require Import Base Utf8 Utf8Facts Chars Ast Analyze Sem ExprLemmas SemSound Param Scope.
 From Coq Require Import Lia NArith.
 
-Definition is_behind_k (la : lookkind) : bool := match la with LookBehind | LookBehindNeg => true | _ => false end.
 
 (* [b = true]: not under a look-behind *)
 Fixpoint kok (b : bool) (e : expr) : Prop :=
@@ -29,15 +28,6 @@ Proof. induction l as [|y r IH]; intros H Hx; [destruct Hx|]. destruct H as [H1 
 Lemma wfe_list_in l x : wfe_list l -> In x l -> wfe x.
 Proof. induction l as [|y r IH]; intros H Hx; [destruct Hx|]. destruct H as [H1 H2]. destruct Hx as [<-|Hx]; auto. Qed.
 
-Fixpoint kokb (b : bool) (e : expr) : bool :=
-  match e with
-  | KeepOut => b
-  | LookAround c la => kokb (b && negb (is_behind_k la)) c
-  | Concat es | Alt es => (fix go (l : list expr) : bool := match l with [] => true | x :: r => kokb b x && go r end) es
-  | Group c | Repeat c _ _ _ | AtomicGroup c => kokb b c
-  | Conditional c y n => kokb b c && kokb b y && kokb b n
-  | _ => true
-  end.
 Lemma kokb_ok : forall e b, kokb b e = true -> kok b e.
 Proof.
   induction e using expr_ind'; intros b Hb; cbn [kokb] in Hb; try exact I; try (cbn [kok]; auto; fail).
